@@ -685,7 +685,7 @@ def dispatch(func, name, args, kwargs):
             ffunc = None
         if ffunc is not None:
             res = dispatch(ffunc, fname, args, kwargs)
-            _write(args[0], A(res))
+            _write(args[0], AK(res))
             return args[0]
     raise NotEncodable(f"no semantics for {name}")
 
